@@ -181,3 +181,24 @@ _upd("C12",
 _upd("C19",
      technique="contract on the real parse_header_items_section (exception-freedom outside the guarded regex call, per-line independence), item constructors, steering block R1 and the purity contract of configure_metadata_patterns "
                "(a junk line cannot influence how a later line is parsed through hidden state) discharged by z3/cvc5; junk-line injection as bounded stand-in")
+
+# ---- last session: full header-line layout (W3), data-section title block (W6), set_data after np.asarray, __setattr__ with an item
+_LAYOUT = (" Every header line of ~Well, ~Parameter and ~Curves is exactly: original mnemonic padded to the section's left width, a period, the unit, "
+           "a blank run up to the section's middle width, then value and description in the order the table gives for the ORIGINAL mnemonic, separated by ' : '.")
+_TITLE = (" What writer.write emits for the title of the data section begins with data_section_header + ' ' and ends with the line terminator, "
+          "whatever wrap, the widths and the mnemonics are (text that passed through a re-flowing library call is unknown text).")
+for _p in ("C03", "C11", "C12"):
+    M[_p]["level_text"] = M[_p]["level_text"].replace(_B, _LAYOUT + (_TITLE if _p != "C03" else "") + _B, 1) if _B in M[_p]["level_text"] \
+        else _P + _LAYOUT.strip() + (_TITLE if _p != "C03" else "") + " " + M[_p]["level_text"]
+M["C01"]["level_text"] = M["C01"]["level_text"].replace(_B, _TITLE + _B, 1)
+_upd("C12", level="other",
+     technique=M["C12"]["technique"].replace("configuration pairs as bounded stand-in",
+                                             "contracts on the real get_section_widths, the header loops W3 (full line layout), the cell formatter W5, the row loop W7 and the data-section title block W6 discharged by z3; configuration pairs as bounded stand-in"))
+_upd("C14",
+     technique="contracts on the real SectionItems operations the curve API is built from, on the LASFile curve methods and on LASFile.set_data after its np.asarray call (existing curves keep their place, surplus columns get new placeholder curves, "
+               "names bound to curves in order, renumbering reached on every path, nothing assigned on the LASFile object) discharged by z3/cvc5; model-based run of every operation sequence up to a bound on the real LASFile",
+     level_text=M["C14"]["level_text"].replace("The LASFile-level operations (set_data, update_curve,", "LASFile.set_data after np.asarray(array_like), for names=None and names=[...]: existing curves keep their place and (without names) their original mnemonics, "
+                                               "surplus columns get new placeholder curves, curve q gets name q (blank beyond the caller's list, no IndexError), assign_duplicate_suffixes is reached after the last rename on every path, "
+                                               "and no attribute of the LASFile object itself is assigned. The remaining LASFile-level behaviour (set_data's column binding and DataFrame branch, update_curve,"))
+_upd("C16",
+     technique=M["C16"]["technique"].replace("discharged by z3;", "and of LASFile.set_data (it never assigns index_initial, the snapshot write() compares the index with) discharged by z3;"))
